@@ -255,9 +255,154 @@ def heap_layer(v, tier, seed):
                 v.samples.append({"heap_random_behaviour": sample})
 
 
+# ----------------------------------------------------------------------------------------------
+# layer 2: timer state machine
+# ----------------------------------------------------------------------------------------------
+#            name   NT  After   NC  H  Past Max Intervals        calls
+TIMER_Q = [("q1",   1, "{}",    1, 3, 0,   1,  "{1, 1000}",      3),
+           ("q2",   2, "{}",    1, 2, 0,   1,  "{1, 1000}",      2),
+           ("q3",   2, "{2}",   1, 2, 0,   1,  "{1, 1000}",      2),
+           ("q4",   1, "{}",    2, 2, 0,   1,  "{1, 1000}",      2)]
+TIMER_T = [("q2h3", 2, "{}",    1, 3, 0,   1,  "{1, 1000}",      2),
+           ("q3h3", 2, "{2}",   1, 3, 0,   1,  "{1, 1000}",      2),
+           ("t1",   1, "{}",    1, 5, 1,   2,  "{1, 2, 1000}",   3),
+           ("t2",   3, "{}",    1, 3, 0,   1,  "{1, 1000}",      2),
+           ("t3",   2, "{2}",   2, 2, 0,   1,  "{1, 1000}",      2),
+           ("t4",   1, "{}",    2, 3, 0,   1,  "{1, 2, 1000}",   2)]
+TIMER_MUTANTS = ("early", "missed_off", "noreprog", "honour_old")
+
+
+def timer_layer(v, tier, seed):
+    jobs = []
+    for name, nt, aft, nc, h, past, mx, ivs, calls in (TIMER_Q if tier == "quick" else TIMER_Q + TIMER_T):
+        cfg = cfg_from("Timer_q.cfg", "Timer_%s.cfg" % name, NTimers=str(nt), AfterSet=aft, NClocks=str(nc), Horizon=str(h),
+                       PastDelta=str(past), MaxDelta=str(mx), Intervals=ivs, MaxCalls=str(calls))
+        jobs.append(("Timer_%s (timers=%d after=%s clocks=%d horizon=%d deltas=-%d..%d intervals=%s calls<=%d)" %
+                     (name, nt, aft, nc, h, past, mx, ivs, calls), cfg, None, False))
+    live = [("live", {})] if tier == "quick" else [("live", {}), ("live2", dict(Horizon="4", Intervals="{1, 2, 1000}"))]
+    for name, sub in live:
+        cfg = cfg_from("Timer_live.cfg", "Timer_%s.cfg" % name, **sub)
+        jobs.append(("Timer_%s (FairSpec: Fires, AfterFires)" % name, cfg, None, True))
+    for mut in TIMER_MUTANTS:
+        cfg = cfg_from("Timer_q.cfg", "Timer_mut_%s.cfg" % mut, Mut='"%s"' % mut)
+        jobs.append(("Timer mutant " + mut, cfg, mut, False))
+    # the variant of "forget to reprogram" that the design survives (informational, thorough only)
+    if tier == "thorough":
+        cfg = cfg_from("Timer_q.cfg", "Timer_mut_noreprog_removed.cfg", Mut='"noreprog_removed"')
+        jobs.append(("Timer benign-mutant noreprog_removed", cfg, "benign", False))
+
+    def onejob(j):
+        name, cfg, mut, liveness = j
+        return tlc_must_pass(name, "Timer.tla", cfg, timeout=3000 if tier == "thorough" else 900, workers=4,
+                             metaname="C11_" + os.path.basename(cfg), heap="6g")
+    with concurrent.futures.ThreadPoolExecutor(4 if tier == "quick" else 3) as ex:
+        results = list(ex.map(onejob, jobs))
+    for (name, cfg, mut, liveness), r in zip(jobs, results):
+        if mut is None:
+            v.add_model(name, r)
+            if r.violated:
+                v.violation("spec %s violates %s: the timer algorithm as transcribed breaks the property" % (name, r.violated),
+                            save_replay(PROP, os.path.basename(cfg) + ".tlc.out", r.out))
+            elif liveness and "Checking temporal properties" not in r.out and "temporal properties" not in r.out:
+                raise Broken("liveness was not checked for %s" % name)
+        elif mut == "benign":
+            v.notes["benign_mutant_noreprog_removed"] = ("not reprogramming after the minimum is REMOVED is %s by TLC "
+                                                         "(the kernel timer then fires early and merge_timer forces a reprogram)" %
+                                                         ("refuted (%s)" % r.violated if r.violated else "not refuted"))
+        else:
+            if not r.violated:
+                raise Broken("spec mutant %s of Timer not refuted: the invariants are vacuous in these bounds" % mut)
+            v.notes.setdefault("spec_mutants_refuted", []).append({"spec": "Timer", "mutant": mut, "by": r.violated})
+
+
+# ----------------------------------------------------------------------------------------------
+# layer 3: the spec's invariants as oracles on real timers
+# ----------------------------------------------------------------------------------------------
+def real_timers(v, tier, seed):
+    drv = build_driver("drv_timer")
+    d = rundir(PROP)
+    rounds, procs, ntimers, span = (2, 6, 120, 700) if tier == "quick" else (10, 8, 200, 1500)
+    tot = collections.Counter()
+    for rnd in range(rounds):
+        seeds = [seed * 100000 + rnd * 100 + i + 1 for i in range(procs)]
+
+        def one(s):
+            fail = os.path.join(d, "timerfail_%d.json" % s)
+            if os.path.exists(fail):
+                os.unlink(fail)
+            n = ntimers if s % 3 else ntimers // 4          # small populations too (near-empty heaps)
+            rc, out, err = sh([drv, str(s), str(n), str(span), fail], timeout=400)
+            return s, n, rc, out, err, fail
+        with concurrent.futures.ThreadPoolExecutor(procs) as ex:
+            res = list(ex.map(one, seeds))
+        for s, n, rc, out, err, fail in res:
+            if rc in (2, 70, 71):
+                what = {2: "an oracle (invariant of spec/Timer.tla) failed on a real timer", 70: "crash inside libdispatch",
+                        71: "Fires: an armed, unsuspended, uncancelled timer never fired"}[rc]
+                if os.path.exists(fail):
+                    p = save_replay(PROP, "timer_seed%d.json" % s, src=fail)
+                else:
+                    p = save_replay(PROP, "timer_seed%d.json" % s, json.dumps({"seed": s, "ntimers": n, "span_ms": span, "stderr": err[-3000:]}))
+                v.violation("%s (drv_timer seed %d, %d timers): %s" % (what, s, n, " ".join(l for l in err.splitlines() if "ORACLE-FAIL" in l or "CRASH" in l)[:1200]), p)
+                continue
+            if rc != 0:
+                raise Broken("drv_timer failed rc=%d: %s %s" % (rc, out[-500:], err[-1000:]))
+            j = json.loads(out.strip().splitlines()[-1])
+            for k in ("timers", "sources", "after_blocks", "set_timer_calls", "handler_invocations", "exact_checks", "weak_checks",
+                      "after_runs", "zero_data_invocations", "inconclusive_wall_step"):
+                tot[k] += j.get(k, 0)
+            tot["populations"] += 1
+            v.traces += j["timers"]
+            if len(v.samples) < 5 and rnd == 0 and s == seeds[0]:
+                v.samples.append({"real_timer_population": j})
+        if v.violations:
+            break
+    v.notes["real_timer_oracles"] = dict(tot)
+
+
 def run(tier, seed):
     v = Verdict(PROP, tier, seed)
-    heap_layer(v, tier, seed)
+    v.assumptions = [
+        "TLC bounds: see models; heap: complete state graphs for <=3-4 timers with keys 0..2 (real C=8) and 5-6 timers at C=4, "
+        "random behaviours with <=40 timers; timers: <=3 timers, <=2 clocks, horizon <=5 ticks, <=3 control calls",
+        "the timerfd/epoll kernel interface delivers an expiry at or after the programmed absolute time (KernelFire)",
+        "the queue machinery delivers wakeups of a source to the manager / target queue (properties C01, C06)",
+        "real executions are samples of schedules and populations, not all of them; deadlines/leeway play no role on this backend",
+    ]
+    ev = os.path.join(REPO, "src", "event", "event.c")
+    if "_dispatch_verif_timer_heap_insert" not in open(ev, errors="replace").read():
+        raise Broken("the guarded heap shim (patches/C11-hook-heap-shim.diff, hook H4) is not present at the end of %s: "
+                     "the static timer heap functions cannot be reached" % ev)
+    # build first (the build scripts are not meant to run concurrently for one tree) ...
+    build_driver("drv_timerheap")
+    build_driver("drv_timer")
+    # ... then the three layers are independent: real timers need wall-clock time, TLC needs CPU
+    subs = [Verdict(PROP, tier, seed) for _ in range(3)]
+    with concurrent.futures.ThreadPoolExecutor(3) as ex:
+        fs = [ex.submit(real_timers, subs[0], tier, seed), ex.submit(heap_layer, subs[1], tier, seed),
+              ex.submit(timer_layer, subs[2], tier, seed)]
+        errs = []
+        for f in fs:
+            try:
+                f.result()
+            except Exception as e:
+                errs.append(e)
+    for sv in subs[1:] + subs[:1]:
+        v.states += sv.states
+        v.transitions += sv.transitions
+        v.traces += sv.traces
+        v.samples += sv.samples
+        v.violations += sv.violations
+        v.known += sv.known
+        v.drift += sv.drift
+        v.models += sv.models
+        for k, val in sv.notes.items():
+            if isinstance(val, list):
+                v.notes.setdefault(k, []).extend(val)
+            else:
+                v.notes[k] = val
+    if errs and not v.violations:
+        raise errs[0]
     return v.finish()
 
 
@@ -267,5 +412,15 @@ def replay(path, seed):
         rc, out, err = sh([drv, path], timeout=900)
         print(out[-2000:], err[-3000:])
         return 0 if rc == 0 else 1
+    if path.endswith(".json") and "timer_seed" in os.path.basename(path):
+        j = json.load(open(path))
+        print(json.dumps(j, indent=1)[:6000])
+        drv = build_driver("drv_timer")
+        bad = 0
+        for k in range(3):          # timing is not deterministic: same population, three executions
+            rc, out, err = sh([drv, str(j["seed"]), str(j.get("ntimers", 120)), str(j.get("span_ms", 700))], timeout=400)
+            print("re-execution %d: rc=%d %s" % (k, rc, (err.strip().splitlines() or [""])[0][:400]))
+            bad += rc != 0
+        return 1 if bad else 0
     print(open(path).read()[-4000:])
     return 1
